@@ -302,7 +302,7 @@ def log5(ctx):
         ctx.missing('chain', 'reader->writer hand-over chain incomplete (%d of 3 links found)' % n)
 
 
-@rule('GC10', ['C01', 'C04'], floor=2, template='ordering')
+@rule('GC10', ['C01', 'C04', 'C18'], floor=2, template='ordering')
 def gc10(ctx):
     """The GC position pass snapshots the queues AFTER the call's own in-memory update."""
     n = 0
